@@ -566,9 +566,10 @@ static TableCache& tables() {
 template <class M, class F>
 static auto cached(M& map, uint64_t m, F mk) -> decltype(mk(m)) {
   auto it = map.find(m);
-  if (it != map.end()) return it->second;
+  if (it != map.end()) { spq::maybe_bystander(); return it->second; }
   auto p = mk(m);
   map[m] = p;
+  spq::maybe_bystander();
   return p;
 }
 
@@ -779,7 +780,7 @@ static void run_reim4_move(Case& k, int kind) {
   const uint64_t m = 1ull << k.lg;
   const uint64_t blk = k.sh(0, 16) % (m / 4);
   const uint64_t nrows = kind >= 2 ? 1 + k.sh(16, 4) % 12 : 1;
-  const uint64_t sl = kind == 3 ? 2 * m + 4 * (k.sh(20, 3)) : 2 * m;  // slice (in doubles) between consecutive reim vectors
+  const uint64_t sl = kind == 3 ? 2 * m + k.sh(20, 4) : 2 * m;  // slice (in doubles) between consecutive reim vectors: any value >= 2m, not only multiples of 4
   const size_t srcn = kind == 1 ? 8 : (nrows - 1) * sl + 2 * m;
   const size_t dstn = kind == 1 ? 2 * m : 8 * nrows;
   double* src = k.in<double>(srcn, 1);
